@@ -1,7 +1,7 @@
 (* C16 / C17: properties of the compiler model: fresh identifiers, directed travel matrix,
    initial-state settings honoured. *)
 From Coq Require Import List ZArith Bool Arith Lia Permutation.
-From JSL Require Import Base.Res Base.ListX SM.Types SM.Util SMP.ListLemmas Dsl.Doc.
+From JSL Require Import Base.Res Base.ListX SM.Types SM.Util SM.Handler SM.Step SM.Inv SMP.ListLemmas Dsl.Doc.
 Import ListNotations.
 Close Scope Z_scope.
 
@@ -279,3 +279,100 @@ Qed.
 (* a listed store keeps its order: it is a prefix of the buffer's initial contents *)
 Theorem listed_store_order_kept listed here : NoDup listed -> exists r, dedup_nat (listed ++ here) = listed ++ r.
 Proof. apply dedup_nodup_prefix. Qed.
+
+(* ---------- the compiled initial state meets the hypotheses of the state-machine theorems ---------- *)
+Lemma mapM_Forall2 {A B} (f : A -> res B) : forall l r, mapM f l = Ok r -> Forall2 (fun a b => f a = Ok b) l r.
+Proof.
+  induction l as [|a l IH]; intros r H; simpl in H.
+  - inversion H; constructor.
+  - destruct (f a) as [b|] eqn:E; simpl in H; [|discriminate].
+    destruct (mapM f l) as [bs|] eqn:E2; simpl in H; [|discriminate]. inversion H; subst. constructor; auto.
+Qed.
+
+Lemma Forall2_weaken {A B} (R R' : A -> B -> Prop) l r : (forall a b, R a b -> R' a b) -> Forall2 R l r -> Forall2 R' l r.
+Proof. intros Himp F. induction F; constructor; auto. Qed.
+
+Lemma Forall2_nth_r {A B} (R : A -> B -> Prop) l r n b : Forall2 R l r -> nth_error r n = Some b -> exists a, nth_error l n = Some a /\ R a b.
+Proof.
+  intros F. revert n. induction F as [|a0 b0 l0 r0 Hab F IH]; intros [|n] Hn; simpl in Hn; try discriminate.
+  - inversion Hn; subst. eexists; split; [reflexivity|auto].
+  - apply IH in Hn. exact Hn.
+Qed.
+
+Lemma forallb_impl {A} (p q : A -> bool) l : (forall a, p a = true -> q a = true) -> forallb p l = true -> forallb q l = true.
+Proof. intros H. rewrite !forallb_forall. auto. Qed.
+
+Lemma Forall2_forallb_r {A B} (R : A -> B -> Prop) (p : B -> bool) l r :
+  Forall2 R l r -> (forall a b, R a b -> p b = true) -> forallb p r = true.
+Proof. intros F Hp. induction F as [|a b l0 r0 Hab F IH]; simpl; auto. rewrite (Hp _ _ Hab). auto. Qed.
+
+Lemma forallb2_map_l {A B C} (f : B -> C -> bool) (g : A -> B) l l' :
+  forallb2 f (map g l) l' = forallb2 (fun a c => f (g a) c) l l'.
+Proof. revert l'; induction l as [|a l IH]; intros [|c l']; simpl; auto. rewrite IH. reflexivity. Qed.
+
+Lemma forallb2_refl_same {A} (f : A -> A -> bool) l : (forall a, f a a = true) -> forallb2 f l l = true.
+Proof. intros H. induction l; simpl; auto. rewrite H. auto. Qed.
+
+Section F.
+Variable d : ddoc.
+
+Theorem init_state_fresh i L x :
+  init_state d i L = Ok x ->
+  fresh_b i x = true /\ clock_b x = true /\ agv_load_b x = true
+  /\ s_now x = (match di_start (d_init d) with Some z => z | None => 0%Z end).
+Proof.
+  unfold init_state. intros H.
+  match type of H with (bind (mapM ?fj ?lj) _) = _ => destruct (mapM fj lj) as [jobs|] eqn:Ej; simpl in H; [|discriminate] end.
+  match type of H with (bind (mapM ?ft ?lt) _) = _ => destruct (mapM ft lt) as [trans|] eqn:Et; simpl in H; [|discriminate] end.
+  inversion H; subst x; clear H.
+  apply mapM_Forall2 in Ej. apply mapM_Forall2 in Et.
+  (* every job record: all operations idle, routed as configured *)
+  assert (Hjobs : Forall2 (fun (a : list opcfg * nat) jb => j_ops jb = map (fun oc => mkOp (oc_mach oc) NoTime NoTime OIdle) (fst a)) 
+                          (combine (i_jobs i) (map (fun j => match find (fun e => Nat.eqb (fst e) j) (di_jloc (d_init d)) with
+                            | Some (_, l) => l | None => match lb_std L with l :: _ => l | [] => 0 end end) (seq 0 (length (i_jobs i))))) jobs).
+  { eapply Forall2_weaken; [|exact Ej]. intros [ops l] jb Hf. simpl in Hf.
+    destruct (label_to_bid L l); simpl in Hf; [|discriminate]. inversion Hf; subst. reflexivity. }
+  assert (Htr : forallb (fun ts => tstate_eqb (t_st ts) TIdle && is_nil (b_store (t_buf ts)) && opt_nat_eqb (t_job ts) None) trans = true).
+  { eapply Forall2_forallb_r; [exact Et|]. intros [t ac] ts Hf. simpl in Hf.
+    match type of Hf with bind ?e _ = _ => destruct e as [loc|]; simpl in Hf; [|discriminate] end. inversion Hf; subst. reflexivity. }
+  split; [|split; [|split]].
+  - (* fresh *)
+    unfold fresh_b. simpl. apply andb_true_iff. split; [apply andb_true_iff; split|].
+    + eapply Forall2_forallb_r; [exact Hjobs|]. intros a jb E. simpl. rewrite E. apply forallb_forall.
+      intros o Ho. apply in_map_iff in Ho. destruct Ho as [oc [<- _]]. reflexivity.
+    + apply forallb_forall. intros ms Hm. apply in_map_iff in Hm. destruct Hm as [mc [<- _]]. reflexivity.
+    + (* machines as configured: jobs and i_jobs have the same length and pointwise ops = map ... *)
+      assert (Hlen : length (combine (i_jobs i) (map (fun j => match find (fun e => Nat.eqb (fst e) j) (di_jloc (d_init d)) with
+                            | Some (_, l) => l | None => match lb_std L with l :: _ => l | [] => 0 end end) (seq 0 (length (i_jobs i))))) = length (i_jobs i)).
+      { rewrite combine_length, map_length, seq_length. lia. }
+      clear Ej Et Htr. revert Hjobs Hlen.
+      generalize (map (fun j => match find (fun e => Nat.eqb (fst e) j) (di_jloc (d_init d)) with
+                            | Some (_, l) => l | None => match lb_std L with l :: _ => l | [] => 0 end end) (seq 0 (length (i_jobs i)))).
+      generalize (i_jobs i). intros cs locs. revert locs jobs.
+      induction cs as [|c cs IH]; intros locs jobs HF Hl; simpl in *.
+      * inversion HF; subst. reflexivity.
+      * destruct locs as [|l locs]; simpl in *; [discriminate|]. inversion HF as [|a jb la lb E1 E2]; subst. simpl in *.
+        apply andb_true_iff. split.
+        -- rewrite E1. rewrite forallb2_map_l. clear. induction c as [|oc c IHc]; simpl; auto.
+           unfold op_machine_ok at 1. simpl. rewrite Nat.eqb_refl. simpl. exact IHc.
+        -- eapply IH; eauto.
+  - (* clock *)
+    unfold clock_b, no_overdue_b, idle_unclaimed_b, sto_ok_b. simpl.
+    apply andb_true_iff. split; [apply andb_true_iff; split; [apply andb_true_iff; split|]|reflexivity].
+    + apply forallb_forall. intros o Ho. apply in_flat_map in Ho. destruct Ho as [jb [Hjb Ho]].
+      apply In_nth_error in Hjb. destruct Hjb as [n Hn].
+      destruct (Forall2_nth_r _ _ _ _ _ Hjobs Hn) as [a [_ E]]. rewrite E in Ho. apply in_map_iff in Ho.
+      destruct Ho as [oc [<- _]]. reflexivity.
+    + eapply forallb_impl; [|exact Htr]. intros ts Hts. simpl in Hts.
+      apply andb_true_iff in Hts. destruct Hts as [Hts _]. apply andb_true_iff in Hts. destruct Hts as [Hs _].
+      destruct (t_st ts); simpl in Hs; try discriminate. reflexivity.
+    + eapply forallb_impl; [|exact Htr]. intros ts Hts. simpl in Hts.
+      apply andb_true_iff in Hts. destruct Hts as [Hts Hj]. apply andb_true_iff in Hts. destruct Hts as [Hs _].
+      destruct (t_st ts); simpl in Hs; try discriminate. exact Hj.
+  - unfold agv_load_b. simpl. eapply forallb_impl; [|exact Htr]. intros ts Hts. simpl in Hts.
+    apply andb_true_iff in Hts. destruct Hts as [Hts _]. apply andb_true_iff in Hts. destruct Hts as [Hs He].
+    destruct (t_st ts); simpl in Hs; try discriminate. exact He.
+  - reflexivity.
+Qed.
+
+End F.
